@@ -183,6 +183,8 @@ def select (s : St) (t : Tid) (skip : List ObjId) (rest : List Frame) : St :=
     { s with lock := some t, vec := vec', ecs := sel.map (fun k => (t, k)) ++ s.ecs, reaped := sel ++ s.reaped }.setStk t
       (.dUnlock1 vec'.length sel :: rest)
 
+def St.decExt (s : St) (k : ObjId) : St := { s with ext := fun j => if j = k then s.ext k - 1 else s.ext j }
+
 /-- user-level markers and calls (the thread's stack is `fs`, with user code on top) -/
 def stepUser (s : St) (t : Tid) (fs : List Frame) : Ev → Option St
   | .new k =>
@@ -191,8 +193,9 @@ def stepUser (s : St) (t : Tid) (fs : List Frame) : Ev → Option St
   | .dup k => if s.ext k > 0 then some { s with ext := fun j => if j = k then s.ext k + 1 else s.ext j } else none
   | .drop k =>
       if s.ext k > 0 then
-        let s1 := { s with ext := fun j => if j = k then s.ext k - 1 else s.ext j }
-        some (if refs s1 k = 0 then { s1 with pend := k :: s1.pend }.setStk t (.dying k :: fs) else s1)
+        (if refs (s.decExt k) k = 0 then
+           some ({ s.decExt k with pend := k :: s.pend }.setStk t (.dying k :: fs))
+         else some (s.decExt k))
       else none
   | .callAdd k mv =>
       if !s.mayCall t then none
